@@ -33,6 +33,7 @@ type TSObs struct {
 	Exact    bool   `json:"exact"`
 	Partial  bool   `json:"partial"`
 	CrossOK  bool   `json:"crossOK"`
+	ReloadOK bool   `json:"reloadOK"` // after a certificate file was added to a loadable store, the same instance returns it as well
 	Panic    bool   `json:"panic"`
 	Note     string `json:"-"`
 }
@@ -213,7 +214,7 @@ func runTrustStoreFS() int {
 			}
 		}
 		ts := truststore.NewX509TrustStore(dir.NewSysFS(cfg))
-		obs := TSObs{ErrClass: "none", CrossOK: true}
+		obs := TSObs{ErrClass: "none", CrossOK: true, ReloadOK: true}
 		var certs []*x509.Certificate
 		var gerr error
 		panicked, msg := guarded(func() {
@@ -266,6 +267,29 @@ func runTrustStoreFS() int {
 				if pn {
 					obs.CrossOK = false
 				}
+			}
+		}
+		// the directory changes (somebody adds a certificate to a store that loaded): the same instance, asked again, returns
+		// exactly the files that are there THEN
+		if !obs.Panic && obs.OK && obs.Exact && (in.Kind == "dir") && typ != "" {
+			added := pki.decoy.Certs[0]
+			must(os.WriteFile(filepath.Join(x509dir, typ, nameStr, "zz-added-later.crt"), pemOf(added), 0644))
+			pn, _ := guarded(func() {
+				got, err := ts.GetCertificates(context.Background(), truststore.Type(typ), nameStr)
+				gt := []string{}
+				for _, c := range got {
+					gt = append(gt, thumb(c))
+				}
+				ex := []string{thumb(added)}
+				for _, c := range want {
+					ex = append(ex, thumb(c))
+				}
+				sort.Strings(gt)
+				sort.Strings(ex)
+				obs.ReloadOK = err == nil && strings.Join(gt, ",") == strings.Join(ex, ",")
+			})
+			if pn {
+				obs.ReloadOK = false
 			}
 		}
 		if *flagLie == "ok" && c.ID%97 == 7 {
